@@ -31,6 +31,11 @@ using namespace vh;
 #ifndef FAMILY
 #define FAMILY 0
 #endif
+// SCALAR: 0 = double only, 1 = float only, 2 = both (one translation unit per scalar keeps the
+// compile time of a unit below a minute)
+#ifndef SCALAR
+#define SCALAR 2
+#endif
 
 // ------------------------------------------------------------------ names (descriptor language)
 template<class G>
@@ -625,8 +630,9 @@ void dump_group()
     int n    = 0;
     std::string names;
     auto hit = [&](bool b, const char * nm) { if (b) { ++n; names += std::string(" ") + nm; } };
-    hit(requires(CM c) { c.setIdentity(); }, "setIdentity");
-    hit(requires(CM c) { c.setRandom(); }, "setRandom");
+    // setIdentity()/setRandom() are declared without `requires is_mutable`; on a const map their
+    // bodies are ill-formed (Eigen::Ref<non-const> from a read-only expression) — that is checked
+    // by the negative compile tests of tools/props/c16.py, a requires-expression cannot see it.
     hit(requires(CM c, G h) { c = h; }, "assign");
     hit(requires(CM c, G h) { c *= h; }, "mul");
     hit(requires(CM c, typename G::Tangent a) { c += a; }, "plus");
@@ -820,24 +826,28 @@ void catalogue(V && visit)
   visit.template group<SO3<S>>();
   visit.template group<SE2<S>>();
   visit.template group<C1<S>>();
-  visit.template group<SE3<S>>();
 #elif FAMILY == 1
+  visit.template group<SE3<S>>();
+  visit.template group<Bundle<SO3<S>>>();
+#elif FAMILY == 2
   visit.template group<Galilei<S>>();
   visit.template group<SE_K_3<S, 1>>();
+#elif FAMILY == 3
   visit.template group<SE_K_3<S, 2>>();
   visit.template group<SE_K_3<S, 3>>();
   visit.template group<SE_K_3<S, 4>>();
-#elif FAMILY == 2
-  visit.template group<Bundle<SO3<S>>>();
+#elif FAMILY == 4
   visit.template group<Bundle<V2, SE2<S>>>();
   visit.template group<Bundle<SE2<S>, V2>>();
   visit.template group<Bundle<SO2<S>, SO2<S>, SO2<S>>>();
   visit.template group<Bundle<V1, V3>>();
+#elif FAMILY == 5
   visit.template group<Bundle<C1<S>, V1, SO3<S>, SO2<S>>>();
-#elif FAMILY == 3
   visit.template group<Bundle<SE3<S>, V3, SO3<S>>>();
+#elif FAMILY == 6
   visit.template group<Bundle<Bundle<SO3<S>, V3>, SE2<S>>>();
   visit.template group<Bundle<V2, Bundle<SO2<S>, Bundle<SE3<S>, V1>>>>();
+#elif FAMILY == 7
   visit.template group<Bundle<Galilei<S>, V4>>();
   visit.template group<Bundle<SE_K_3<S, 2>, SO3<S>>>();
 #endif
@@ -920,8 +930,12 @@ int eval_mode()
     std::vector<std::string> toks(t.begin() + 3, t.end());
     std::string reply;
     bool done = false;
+#if SCALAR != 1
     if (t[2] == "f64") { EvalVisitor<double> v{t[0], t[1], toks}; catalogue<double>(v); reply = v.reply; done = v.done; }
-    else if (t[2] == "f32") { EvalVisitor<float> v{t[0], t[1], toks}; catalogue<float>(v); reply = v.reply; done = v.done; }
+#endif
+#if SCALAR != 0
+    if (t[2] == "f32") { EvalVisitor<float> v{t[0], t[1], toks}; catalogue<float>(v); reply = v.reply; done = v.done; }
+#endif
     if (!done) std::printf("SKIP %s %s\n", t[0].c_str(), t[1].c_str());
     else if (reply == "BAD") std::printf("BAD %s\n", s.c_str());
     else std::printf("%s |%s\n", s.c_str(), reply.c_str());
@@ -935,15 +949,23 @@ int main(int argc, char ** argv)
   const std::string mode = argc > 1 ? argv[1] : "dump";
   if (mode == "eval") return eval_mode();
   if (mode == "dump") {
+#if SCALAR != 1
     catalogue<double>(DumpVisitor{});
+#endif
+#if SCALAR != 0
     catalogue<float>(DumpVisitor{});
+#endif
     return 0;
   }
   if (mode == "agree") {
     const int n = argc > 2 ? std::atoi(argv[2]) : 20;
-    Rng r(seed_from_env() * 1000 + 16 + FAMILY);
+    Rng r(seed_from_env() * 1000 + 16 + 10 * FAMILY + SCALAR);
+#if SCALAR != 1
     catalogue<double>(AgreeVisitor{r, n});
+#endif
+#if SCALAR != 0
     catalogue<float>(AgreeVisitor{r, n});
+#endif
     return 0;
   }
   std::fprintf(stderr, "usage: mem eval|dump|agree <n>\n");
